@@ -273,6 +273,20 @@ def check_plan(it, old, new, res, sym, survivors, stats):
         if not holds(smt, order):
             raise PlanViolation('order', 'two patches exchange the order of their subtrees')
     if survivors is not None:
+        # "untouched" is only well defined when no inserted subtree is shaped exactly like an old sibling (identically shaped
+        # siblings may legitimately exchange their state): assume that for the survivor clause only
+        kept_new = set(pn for (_, pn) in survivors)
+        unamb = []
+        for i, nc in enumerate(new[1]):
+            if (i,) in kept_new:
+                continue
+            for oc in old[1]:
+                mc = match_cond(nc, oc, sym)
+                if mc is True:
+                    unamb.append(z3.BoolVal(False))
+                elif mc is not False:
+                    unamb.append(z3.Not(mc))
+        unamb = z3.And(*unamb) if unamb else z3.BoolVal(True)
         for (po, pn) in survivors:
             stats['obligations'] += 1
             a_n, z_n = ln[pn]
@@ -280,13 +294,13 @@ def check_plan(it, old, new, res, sym, survivors, stats):
             for (src, dst, size) in patches:
                 inside = z3.And(z3.UGE(Z(dst), Z(a_n)), z3.ULE(Z(dst) + Z(size), Z(a_n) + Z(z_n)))
                 covered = covered + z3.If(inside, Z(size), Z(0))
-            if not holds(smt, covered == Z(z_n)):
+            if not holds(smt, z3.Implies(unamb, covered == Z(z_n))):
                 raise PlanViolation('survivor', 'surviving subtree old%s -> new%s is not carried over completely' % (list(po), list(pn)))
         for (a, b) in itertools.combinations(patches, 2):
             stats['obligations'] += 1
             (s1, d1, z1), (s2, d2, z2) = a, b
             sdisj = z3.Or(Z(z1) == 0, Z(z2) == 0, z3.ULE(Z(s1) + Z(z1), Z(s2)), z3.ULE(Z(s2) + Z(z2), Z(s1)))
-            if not holds(smt, sdisj):
+            if not holds(smt, z3.Implies(unamb, sdisj)):
                 raise PlanViolation('survivor', 'one old subtree is copied to two destinations while survivors compete for it')
     return patches
 
@@ -344,9 +358,11 @@ def concrete_clause_check(old, new, sizes, real, survivors):
             if (s1 < s2) != (d1 < d2):
                 bad.append('order')
             if survivors is not None and not (s1 + z1 <= s2 or s2 + z2 <= s1):
-                bad.append('survivor')
+                bad.append('survivor-src')
     if survivors is not None:
-        for (po, pn) in survivors:
+        kept_new = set(tuple(pn) for (_, pn) in survivors)
+        amb = any(match_cond(nc, oc, sym) is True for i, nc in enumerate(new[1]) if (i,) not in kept_new for oc in old[1])
+        for (po, pn) in ([] if amb else survivors):
             a_n, z_n = ln[tuple(pn)]
             cov = sum(z for (s, d, z) in ps if d >= a_n and d + z <= a_n + z_n)
             if cov != z_n:
